@@ -53,9 +53,11 @@ def scenario(args):
     elif kind == "routing-mid":
         s, d, t, n = p
         jobs.append(net.job_write(name[s], d, t, msg(n), budget_ms=8000))
-    ns = net.NetSim(nodes, seed=seed, jitter=jitter, faults=rules)
+    # every third scenario runs in a private address space (prefix / suffix changed after construction, node_address re-assigned)
+    priv = dict(prefix=0xA7, suffix=[0x5A, 0x69, 0x96, 0xA5, 0xC3, 0x3C]) if seed % 3 == 0 else {}
+    ns = net.NetSim(nodes, seed=seed, jitter=jitter, faults=rules, **priv)
     tr = ns.run(jobs)
-    tr["meta"] = dict(kind=kind, params=[oct(x) if isinstance(x, int) and i < 2 else x for i, x in enumerate(p)], seed=seed, jitter=jitter)
+    tr["meta"] = dict(kind=kind, params=[oct(x) if isinstance(x, int) and i < 2 else x for i, x in enumerate(p)], seed=seed, jitter=jitter, private_addresses=bool(priv))
     return tr
 
 
